@@ -60,9 +60,13 @@ RECURSIVE Cat(_)
 Cat(ss) == IF ss = <<>> THEN <<>> ELSE Head(ss) \o Cat(Tail(ss))
 
 -----------------------------------------------------------------------------
-(* Binary protocol.  sw = [codes, stop]: TRUE = as specified *)
+(* Binary protocol.  sw = [codes, stop, enum]: TRUE = as specified *)
+(* Enums (struct tag option "enum" on an integer field of any width) are i32 on the wire: the field header   *)
+(* says I32 and the value is encoded as an i32.  As the code is (enum = FALSE) the header carries the type   *)
+(* of the Go field's width while the value is still written as an i32.                                        *)
 RECURSIVE Bin(_, _)
 BinTy(sw, ty) == IF sw.codes THEN BinCode(ty) ELSE CompCode(ty)
+HdrTy(asSpec, val) == IF val.ty = "ENUM" THEN (IF asSpec THEN "I32" ELSE val.e) ELSE val.ty
 Bin(sw, x) ==
   CASE x.ty = "BOOL"   -> <<B(IF x.v = 0 THEN 0 ELSE 1)>>
     [] x.ty = "I8"     -> <<Sym("i8", x.ty, x.v)>>
@@ -71,12 +75,13 @@ Bin(sw, x) ==
     [] x.ty = "I64"    -> <<Sym("be64", x.ty, x.v)>>
     [] x.ty = "DOUBLE" -> <<Sym("dbe", x.ty, x.v)>>
     [] x.ty = "BINARY" -> <<Sym("bin32", x.ty, x.v)>>
+    [] x.ty = "ENUM"   -> <<Sym("enum32", x.e, x.v)>>
     [] x.ty \in {"LIST","SET"} ->
          <<B(BinTy(sw, x.e))>> \o BE32(Len(x.xs)) \o Cat([i \in 1..Len(x.xs) |-> Bin(sw, x.xs[i])])
     [] x.ty = "MAP" ->
          <<B(BinTy(sw, x.k)), B(BinTy(sw, x.e))>> \o BE32(Len(x.xs) \div 2) \o Cat([i \in 1..Len(x.xs) |-> Bin(sw, x.xs[i])])
     [] x.ty = "STRUCT" ->
-         Cat([i \in 1..Len(x.xs) |-> <<B(BinTy(sw, x.xs[i].val.ty))>> \o BE16(x.xs[i].id) \o Bin(sw, x.xs[i].val)])
+         Cat([i \in 1..Len(x.xs) |-> <<B(BinTy(sw, HdrTy(sw.enum, x.xs[i].val)))>> \o BE16(x.xs[i].id) \o Bin(sw, x.xs[i].val)])
          \o (IF sw.stop THEN <<B(0)>> ELSE <<B(0), B(0), B(0)>>)
 
 \* message header (type mt in 0..3, name = binary id, seq = I32 id)
@@ -87,29 +92,33 @@ BinMessage(strict, fixVersion, mt, name, seq) ==
 -----------------------------------------------------------------------------
 (* Compact protocol.  long = TRUE: the long forms of field and list headers are used everywhere   *)
 (* (an alternative conformant encoding).  dle = doubles little-endian as specified.               *)
-RECURSIVE Comp(_, _, _), CompFields(_, _, _, _)
+RECURSIVE CompS(_, _, _), CompFields(_, _, _, _)
 ListHeader(long, n, code) == IF n <= 14 /\ ~long THEN <<B(n * 16 + code)>> ELSE <<B(240 + code)>> \o UV(n)
-Comp(dle, long, x) ==
+CompS(sw, long, x) ==
   CASE x.ty = "BOOL"   -> <<B(IF x.v = 0 THEN 0 ELSE 1)>>          \* only reached for bool container elements (not generated)
     [] x.ty = "I8"     -> <<Sym("i8", x.ty, x.v)>>
     [] x.ty \in {"I16","I32","I64"} -> <<Sym("zz", x.ty, x.v)>>
-    [] x.ty = "DOUBLE" -> <<Sym(IF dle THEN "dle" ELSE "dbe", x.ty, x.v)>>
+    [] x.ty = "DOUBLE" -> <<Sym(IF sw.dle THEN "dle" ELSE "dbe", x.ty, x.v)>>
     [] x.ty = "BINARY" -> <<Sym("binuv", x.ty, x.v)>>
+    [] x.ty = "ENUM"   -> <<Sym("enumzz", x.e, x.v)>>
     [] x.ty \in {"LIST","SET"} ->
-         ListHeader(long, Len(x.xs), CompCode(x.e)) \o Cat([i \in 1..Len(x.xs) |-> Comp(dle, long, x.xs[i])])
+         ListHeader(long, Len(x.xs), CompCode(x.e)) \o Cat([i \in 1..Len(x.xs) |-> CompS(sw, long, x.xs[i])])
     [] x.ty = "MAP" ->
          IF x.xs = <<>> THEN <<B(0)>>
-         ELSE UV(Len(x.xs) \div 2) \o <<B(CompCode(x.k) * 16 + CompCode(x.e))>> \o Cat([i \in 1..Len(x.xs) |-> Comp(dle, long, x.xs[i])])
-    [] x.ty = "STRUCT" -> CompFields(dle, long, x.xs, 0) \o <<B(0)>>
-CompFields(dle, long, fs, last) ==
+         ELSE UV(Len(x.xs) \div 2) \o <<B(CompCode(x.k) * 16 + CompCode(x.e))>> \o Cat([i \in 1..Len(x.xs) |-> CompS(sw, long, x.xs[i])])
+    [] x.ty = "STRUCT" -> CompFields(sw, long, x.xs, 0) \o <<B(0)>>
+CompFields(sw, long, fs, last) ==
   IF fs = <<>> THEN <<>>
   ELSE LET f     == Head(fs)
-           code  == IF f.val.ty = "BOOL" THEN (IF f.val.v = 0 THEN 2 ELSE 1) ELSE CompCode(f.val.ty)   \* bools live in the type nibble
+           code  == IF f.val.ty = "BOOL" THEN (IF f.val.v = 0 THEN 2 ELSE 1) ELSE CompCode(HdrTy(sw.enum, f.val))   \* bools live in the type nibble
            delta == f.id - last
            hdr   == IF f.id > last /\ delta <= 15 /\ ~long THEN <<B(delta * 16 + code)>>
                     ELSE <<B(code)>> \o UV(2 * f.id)                                                    \* zig-zag of a positive id
-           body  == IF f.val.ty = "BOOL" THEN <<>> ELSE Comp(dle, long, f.val) IN
-       hdr \o body \o CompFields(dle, long, Tail(fs), f.id)
+           body  == IF f.val.ty = "BOOL" THEN <<>> ELSE CompS(sw, long, f.val) IN
+       hdr \o body \o CompFields(sw, long, Tail(fs), f.id)
+
+\* sw = [dle, enum]: doubles little-endian / enum headers say I32, as specified
+Comp(asSpec, long, x) == CompS([dle |-> asSpec, enum |-> asSpec], long, x)
 
 CompMessage(fixByte, mt, name, seqSmall) ==
   <<B(130), B(IF fixByte THEN mt * 32 + 1 ELSE mt)>> \o UV(seqSmall) \o <<Sym("binuv", "BINARY", name)>>
@@ -133,12 +142,14 @@ ElemValues(t) == IF t \in {"STRUCT","STRUCTP"} THEN Sub1Values ELSE {Sc(t, i) : 
 
 TypeChoices ==
   {[ty |-> t, e |-> "", k |-> ""] : t \in Scalars \cup {"STRUCT"}}
+  \cup {[ty |-> "ENUM", e |-> w, k |-> ""] : w \in {"I8","I16","I32","I64"}}       \* option "enum" on an integer field of width w
   \cup {[ty |-> "LIST", e |-> e, k |-> ""] : e \in ElemTypes \cup {"I64","DOUBLE"}}
   \cup {[ty |-> "SET", e |-> e, k |-> ""] : e \in {"I32","BINARY"}}
   \cup {[ty |-> "MAP", e |-> e, k |-> k] : k \in {"I32","BINARY"}, e \in {"I64","BINARY","STRUCT","STRUCTP"}}
 
 ValuesOf(tc) ==
   CASE tc.ty \in Scalars -> {Sc(tc.ty, i) : i \in Ids}
+    [] tc.ty = "ENUM"    -> {Val("ENUM", i, tc.e, "", <<>>) : i \in Ids}
     [] tc.ty = "STRUCT"  -> Sub1Values
     [] tc.ty = "LIST"    -> {Val("LIST", 0, tc.e, "", <<>>)} \cup {Val("LIST", 0, tc.e, "", <<a>>) : a \in ElemValues(tc.e)}
                             \cup {Val("LIST", 0, tc.e, "", <<a, b>>) : a \in ElemValues(tc.e), b \in ElemValues(tc.e)}
@@ -169,7 +180,7 @@ Spec == Init /\ [][Next]_vars
 -----------------------------------------------------------------------------
 (* The logical struct the package must write: fields in ascending id order; optional zero values and  *)
 (* nil pointers are left out, required fields are always written                                      *)
-IsZero(x) == CASE x.ty \in Scalars -> x.v = 0
+IsZero(x) == CASE x.ty \in Scalars \cup {"ENUM"} -> x.v = 0
                [] x.ty = "STRUCT" -> x.xs = <<>>
                [] OTHER -> FALSE               \* a non-nil empty collection is written (nil ones are not generated)
 Written(i) == /\ vals[i].ty # "NIL"
@@ -182,8 +193,8 @@ Logical == Val("STRUCT", 0, "", "",
                LET idx == SortedIdx({i \in 1..Len(layout) : Written(i)}) IN
                [j \in 1..Len(idx) |-> Fld(layout[idx[j]].id, vals[idx[j]])])
 
-Spec1 == [codes |-> TRUE, stop |-> TRUE]
-AsIs1 == [codes |-> FALSE, stop |-> FALSE]
+Spec1 == [codes |-> TRUE, stop |-> TRUE, enum |-> TRUE]
+AsIs1 == [codes |-> FALSE, stop |-> FALSE, enum |-> FALSE]
 
 \* design properties of the encodings themselves
 TypeOK == Len(layout) = Len(vals)
@@ -210,5 +221,9 @@ EmitVector == (Emit /\ layout # <<>>) =>
   PrintT(ToJson([layout |-> layout, vals |-> vals, logical |-> Logical,
                  bin |-> Bin(Spec1, Logical), binasis |-> Bin(AsIs1, Logical),
                  comp |-> Comp(TRUE, FALSE, Logical), compasis |-> Comp(FALSE, FALSE, Logical),
-                 complong |-> Comp(TRUE, TRUE, Logical), complongasis |-> Comp(FALSE, TRUE, Logical)]))
+                 complong |-> Comp(TRUE, TRUE, Logical), complongasis |-> Comp(FALSE, TRUE, Logical),
+                 \* the dialect of the Writer implementations driven directly (the caller names the field type, so
+                 \* the enum deviation of Marshal does not arise there)
+                 binasisw |-> Bin([codes |-> FALSE, stop |-> FALSE, enum |-> TRUE], Logical),
+                 compasisw |-> CompS([dle |-> FALSE, enum |-> TRUE], FALSE, Logical)]))
 =============================================================================
